@@ -90,7 +90,7 @@ var lprofiles = map[string]*lprofile{
 	"C02": {prop: "C02", runBias: true, noNone: false, qmax: 0, quickCases: 1500, thorCases: 30000},
 	"C03": {prop: "C03", onlyCompl: true, qmax: 3000, quickCases: 1200, thorCases: 24000, raceCases: 300},
 	"C09": {prop: "C09", noNone: true, qmax: 0, quickCases: 1500, thorCases: 30000},
-	"C10": {prop: "C10", qmax: 3000, quickCases: 1000, thorCases: 20000, raceCases: 400},
+	"C10": {prop: "C10", qmax: 3000, quickCases: 1000, thorCases: 20000, raceCases: 400, overLimit: true},
 	"C13": {prop: "C13", qmax: 2000, quickCases: 1000, thorCases: 20000, overLimit: true},
 	"C14": {prop: "C14", kinds: []string{"i8", "i16", "i32", "i64"}, qmax: 1500, quickCases: 1600, thorCases: 30000},
 	"C18": {prop: "C18", qmax: 0, quickCases: 1500, thorCases: 60000},
@@ -652,6 +652,38 @@ func (e *lookupEnv) oracleC10(qs []string, keep bool, strict bool) []qres {
 				b[i] ^= 0xa5
 			}
 			e.ctx.Count("returned_values_scribbled", 1)
+		}
+		// the same query once more, stored so that nothing readable follows it:
+		// a lookup must not read past the end of its query string, and what it
+		// answers must not depend on what lies behind it
+		if qi%4 == 1 && len(scribbled) == 0 {
+			if gq, ok := guardedQuery(q); ok {
+				var v2, rv2, lv2, ev2, rrv2 interface{}
+				var found2, rfound2 bool
+				var id2 int32
+				api := "Get"
+				pv, stack := try(func() {
+					v2, found2 = st.Get(gq)
+					api = "GetID"
+					id2 = st.GetID(gq)
+					api = "RangeGet"
+					rv2, rfound2 = st.RangeGet(gq)
+					api = "Search"
+					lv2, ev2, rrv2 = st.Search(gq)
+				})
+				if pv != nil {
+					e.viol("panic-"+api, q, map[string]interface{}{"panic": fmt.Sprint(pv), "stack": stack,
+						"what": "the query string ends at the last byte of a readable page (guard page behind it): the call read past the end of its argument"})
+					return out
+				}
+				if found2 != found || id2 != id || rfound2 != rfound || !sameVal(v2, v) || !sameVal(rv2, rv) || !sameVal(lv2, lv) || !sameVal(ev2, ev) || !sameVal(rrv2, rrv) {
+					e.viol("answer-depends-on-memory-behind-the-query", q, map[string]interface{}{
+						"ordinary_string": []string{show(v), fmt.Sprint(found), fmt.Sprint(id), show(rv), show(lv), show(ev), show(rrv)},
+						"guarded_string":  []string{show(v2), fmt.Sprint(found2), fmt.Sprint(id2), show(rv2), show(lv2), show(ev2), show(rrv2)}})
+					return out
+				}
+				e.ctx.Count("queries_repeated_against_a_guard_page", 1)
+			}
 		}
 	}
 	e.ctx.Count("queries", int64(len(qs)))
